@@ -289,6 +289,10 @@ func runGuardedRules(p *Program, id string) ([]*Gen, []string) {
 						// branch facts) must hold; this is how a short-circuit `a || b` guard is checked
 						holds, missing = true, ""
 						b := in.Block()
+						if len(b.Preds) == 0 {
+							// the entry block: nothing has been tested yet
+							holds, missing = false, "any of ("+ra+"): the site is in the function's entry block, before any test"
+						}
 						for _, pred := range b.Preds {
 							var facts []domFact
 							if len(pred.Instrs) > 0 {
@@ -318,6 +322,44 @@ func runGuardedRules(p *Program, id string) ([]*Gen, []string) {
 							if !okEdge {
 								holds, missing = false, "any of ("+ra+") on the edge from block "+fmt.Sprint(pred.Index)
 							}
+						}
+					}
+					if ps := kv["preceded-by-send"]; ps != "" && holds {
+						// `preceded-by-send=PATTERN`: a (possibly conditional) send on a matching channel lies between the site's
+						// immediate dominator and the site: in the site's block before it, or in a block that the immediate
+						// dominator dominates and from which the site's block is reached
+						found := false
+						for _, x := range in.Block().Instrs {
+							if x == in {
+								break
+							}
+							if _, ok := siteMatches(p, "send "+ps, x); ok {
+								found = true
+							}
+						}
+						if id := in.Block().Idom(); id != nil && !found {
+							for _, d := range in.Parent().Blocks {
+								if d == in.Block() || !id.Dominates(d) {
+									continue
+								}
+								reaches := false
+								for _, sx := range d.Succs {
+									if sx == in.Block() {
+										reaches = true
+									}
+								}
+								if !reaches {
+									continue
+								}
+								for _, x := range d.Instrs {
+									if _, ok := siteMatches(p, "send "+ps, x); ok {
+										found = true
+									}
+								}
+							}
+						}
+						if !found {
+							holds, missing = false, "a send on "+ps+" just before the site"
 						}
 					}
 					if kv["forbid-go"] != "" && holds {
